@@ -5,6 +5,7 @@ import Lcapy.Model.CRat
 import Lcapy.Model.Fp
 import Lcapy.Model.DT
 import Lcapy.Spec.DT
+import Lcapy.Generated.DTSeq
 namespace Lcapy.Driver.C13
 open Lcapy Lcapy.DT
 
@@ -66,6 +67,28 @@ def parseXR (toks : List String) : Option (Int → Rat) :=
 
 def zrStr (r : ZR CRat) : String :=
   s!"{r.adv} {listStr toString r.num} {listStr toString r.den}"
+
+
+/-- `coef p a step|imp d none` | `… cos eb ec` | `… sin eb ec j` -/
+def parseDTerm {α : Type} (f : String → Option α) : List String → Option (DTerm α)
+  | [c, p, a, g, d, "none"] => do
+      some ⟨← f c, ← p.toNat?, ← f a, g == "step", ← d.toInt?, .none⟩
+  | [c, p, a, g, d, "cos", eb, ec] => do
+      some ⟨← f c, ← p.toNat?, ← f a, g == "step", ← d.toInt?, .cos (← f eb) (← f ec)⟩
+  | [c, p, a, g, d, "sin", eb, ec, j] => do
+      some ⟨← f c, ← p.toNat?, ← f a, g == "step", ← d.toInt?, .sin (← f eb) (← f ec) (← f j)⟩
+  | _ => none
+
+def parseDSig {α : Type} (f : String → Option α) (toks : List String) : Option (List (DTerm α)) :=
+  if toks.isEmpty then some [] else (splitOnTok ";" toks).mapM (parseDTerm f)
+
+/-- the model of `nseq.ZT` / `zseq.IZT` selected by the flags regenerated from the source text
+    (`Generated/DTSeq.lean`): list position (the code as it is: finding F27) or sequence index -/
+def seqZTModel (vals : List CRat) (n0 : Int) (z : CRat) : List CRat :=
+  if Lcapy.Generated.DTSeq.ztUsesSequenceIndex then seqZT vals n0 z else seqZTPy vals z
+
+def seqIZTModel (terms : List CRat) (n0 : Int) (z : CRat) : List CRat :=
+  if Lcapy.Generated.DTSeq.iztUsesSequenceIndex then pdilateFrom z (zpowK z n0) terms else seqIZTPy terms z
 
 def handle (toks : List String) : Option String :=
   match toks with
@@ -203,6 +226,72 @@ def handle (toks : List String) : Option String :=
         let r := ztSig ts
         if peval r.den (1 / z) = 0 then "undef" else toString (r.eval z)
       | _, _ => "bad-op"
+  -- model: nseq.ZT terms (value list, first index n0) at z; reply `<first index of the result> <terms>`
+  | ["seq.zt", z, n0, vs] => some <| Id.run do
+      match parseCRat z, n0.toInt?, parseList parseCRat vs with
+      | some z, some n0, some vs =>
+        let i0 : Int := if Lcapy.Generated.DTSeq.ztKeepsIndices then n0 else 0
+        s!"{i0} {listStr toString (seqZTModel vs n0 z)}"
+      | _, _, _ => "bad-op"
+  -- model: zseq.IZT of nseq.ZT (round trip), reply `<first index> <values>`
+  | ["seq.iztzt", z, n0, vs] => some <| Id.run do
+      match parseCRat z, n0.toInt?, parseList parseCRat vs with
+      | some z, some n0, some vs =>
+        let i0 : Int := if Lcapy.Generated.DTSeq.ztKeepsIndices then n0 else 0
+        let j0 : Int := if Lcapy.Generated.DTSeq.iztKeepsIndices then i0 else 0
+        s!"{j0} {listStr toString (seqIZTModel (seqZTModel vs n0 z) i0 z)}"
+      | _, _, _ => "bad-op"
+  -- spec: the defining sums of the literal sequence at z: `<bilateral Σ x[n] z^-n> <unilateral Σ_{n≥0} x[n] z^-n>`
+  | ["seq.ztspec", z, n0, vs] => some <| Id.run do
+      match parseRat z, n0.toInt?, parseList parseRat vs with
+      | some z, some n0, some vs =>
+        let bi := dtftSum (litVal vs n0) (1 / z) n0 vs.length
+        let uni := dtftSum (fun n => if 0 ≤ n then litVal vs n0 n else 0) (1 / z) n0 vs.length
+        s!"{ratToStr bi} {ratToStr uni}"
+      | _, _, _ => "bad-op"
+  -- model: nseq.DFT element at q (F_P), and spec: the bilateral sum over the sequence's own index range
+  | ["seq.dft", q, n0, vs] => some <| Id.run do
+      match Fp.parse q, n0.toInt?, parseList Fp.parse vs with
+      | some q, some n0, some vs =>
+        s!"{seqDFTPy vs n0 q} {dtftSum (litVal vs n0) q n0 vs.length}"
+      | _, _, _ => "bad-op"
+  -- model: the DTFT rule cascade (regular part) evaluated at E = e^{-jΩ} (F_P), plus the Dirac-comb pairs
+  | "dtft2.model" :: e :: "|" :: rest => some <| Id.run do
+      match Fp.parse e, parseDSig Fp.parse rest with
+      | some e, some ts =>
+        let r := dtftRegSig ts
+        let combs := ts.foldr (fun t acc => dtftComb t ++ acc) []
+        let cs := listStr (fun (p : Fp × Fp) => s!"{p.1}:{p.2}") combs
+        if peval r.den e = 0 then s!"undef {cs}" else s!"{r.eval (1 / e)} {cs}"
+      | _, _ => "bad-op"
+  -- spec: the bilateral defining sum Σ_{n=lo}^{lo+len-1} x[n] E^n of the DTFT term list (F_P)
+  | "dtft2.spec" :: lo :: len :: e :: "|" :: rest => some <| Id.run do
+      match lo.toInt?, len.toNat?, Fp.parse e, parseDSig Fp.parse rest with
+      | some lo, some len, some e, some ts => toString (dtftSum (dsigVal ts) e lo len)
+      | _, _, _, _ => "bad-op"
+  -- spec: values of the DTFT term list (F_P)
+  | "dtft2.vals" :: lo :: len :: "|" :: rest => some <| Id.run do
+      match lo.toInt?, len.toNat?, parseDSig Fp.parse rest with
+      | some lo, some len, some ts =>
+        listStr toString ((List.range len).map fun (i : Nat) => dsigVal ts (lo + Int.ofNat i))
+      | _, _, _ => "bad-op"
+  -- model: discretize by substitution; kind = gbt (alpha) | simpson; H(s) = num/den lowest power first; value at z
+  | ["disc.model", kind, alpha, dt, z, num, den] => some <| Id.run do
+      match parseCRat alpha, parseCRat dt, parseCRat z, parseList parseCRat num, parseList parseCRat den with
+      | some alpha, some dt, some z, some num, some den =>
+        let nd := if kind == "simpson" then discretizeSimpson dt num den else discretizeGBT alpha dt num den
+        s!"{peval nd.1 (1 / z) / peval nd.2 (1 / z)} {listStr toString nd.1} {listStr toString nd.2}"
+      | _, _, _, _, _ => "bad-op"
+  -- model: impulse invariance of Σ r_i/(s - p_i) given E_i = exp(p_i dt): value at z and first n samples
+  | "ii.model" :: dt :: z :: n :: "|" :: rest => some <| Id.run do
+      match parseCRat dt, parseCRat z, n.toNat? with
+      | some dt, some z, some n =>
+        let pairs := (splitOnTok ";" rest).filterMap fun
+          | [r, e] => do some ((← parseCRat r), (← parseCRat e))
+          | _ => none
+        let r := impulseInvariance dt pairs
+        s!"{r.eval z} {listStr toString (series r.num r.den n)}"
+      | _, _, _ => "bad-op"
   | _ => none
 
 end Lcapy.Driver.C13
